@@ -135,6 +135,8 @@ def run(rep, drv):
 		which = rng.choice(['normal', 'poisson', 'discrete', 'explicit', 'myopic', 'continuous', 'yield-additive', 'disruptions', 'eoq-disruptions'])
 		if k < 3:
 			which = 'eoq-disruptions'          # corpus: the first cases are EOQ-with-disruptions in the rare-long-disruption regime
+		elif k < 11:
+			which = 'continuous'               # corpus: one continuous newsvendor per shifted / scaled family (below)
 		case = {'variant': which, 'h': h, 'p': p, 'mean': mean, 'sd': sd, 'L': L}
 		rep.case('newsvendor', case); rep.count('variant:' + which)
 		try:
@@ -225,10 +227,33 @@ def run(rep, drv):
 						errs.append('set_myopic_cost_to(%r, left_half=%s) = %r: G(y) = %r, minimiser %r' % (target, side, y, gy, S))
 			elif which == 'continuous':
 				dist = rng.choice([stats.gamma(4, scale=mean / 4), stats.uniform(mean / 2, mean), stats.norm(mean, sd)])
+				# "any continuous distribution": shifted and scaled families too (their own stream: the main one is unchanged)
+				rng_d = random.Random(rep.seed * 7 + k)
+				if k % 3 == 0 or 3 <= k < 11:
+					fams_ = [('lognorm(0.3, loc=mean/2, scale=mean/2)', stats.lognorm(0.3, mean / 2, mean / 2)), ('lognorm(0.6, loc=40, scale=30)', stats.lognorm(0.6, 40, 30)),
+						('lognorm(0.5, loc=-20, scale=60)', stats.lognorm(0.5, -20, 60)), ('gamma(3, loc=mean/2, scale=mean/6)', stats.gamma(3, loc=mean / 2, scale=mean / 6)),
+						('expon(loc=mean/2, scale=mean/2)', stats.expon(loc=mean / 2, scale=mean / 2)), ('beta(2,3) on [mean/2, 2 mean]', stats.beta(2, 3, loc=mean / 2, scale=1.5 * mean)),
+						('norm(mean, sd)', stats.norm(mean, sd)), ('lognorm(0.4, scale=mean)', stats.lognorm(0.4, scale=mean))]
+					dname, dist = fams_[k - 3] if 3 <= k < 11 else rng_d.choice(fams_)
+					case['dist'] = dname; rep.count('continuous:shifted-or-scaled-family')
 				S, c = call(nvm.newsvendor_continuous, h, p, demand_distrib=dist)
 				_, c2 = call(nvm.newsvendor_continuous, h, p, demand_distrib=dist, base_stock_level=S)
 				if not close(c, c2, 1e-7): errs.append('reported != evaluated')
 				if not close(dist.cdf(S), p / (p + h), 1e-8): errs.append('F(S*) != critical ratio')
+				# the cost is the model's defining expectation h E[(S-D)+] + p E[(D-S)+] (independent quadrature of the density), at S* and elsewhere,
+				# and no other level evaluates better
+				from scipy import integrate as _ig
+				lo_, hi_ = float(dist.ppf(1e-12)), float(dist.ppf(1 - 1e-12))
+				def defn(y):
+					over = _ig.quad(lambda t_: (y - t_) * dist.pdf(t_), lo_, y, limit=200)[0] if y > lo_ else 0.0
+					under = _ig.quad(lambda t_: (t_ - y) * dist.pdf(t_), y, hi_, limit=200)[0] if y < hi_ else 0.0
+					return h * over + p * under
+				if not close(c, defn(S), 1e-5): errs.append('cost at S*=%r reported %r, h E[(S-D)+] + p E[(D-S)+] = %r' % (S, c, defn(S)))
+				for q_ in (0.1, 0.35, 0.7, 0.95):
+					y = float(dist.ppf(q_))
+					_, cy = call(nvm.newsvendor_continuous, h, p, demand_distrib=dist, base_stock_level=y)
+					if not close(cy, defn(y), 1e-5): errs.append('cost of S=%r evaluated %r, definition %r' % (y, cy, defn(y)))
+					if cy < c - 1e-7 * max(1, abs(c)): errs.append('S=%r evaluates better (%r) than the returned optimum (%r)' % (y, cy, c))
 			elif which == 'yield-additive':
 				d = mean
 				ymn, ysd = rng.choice([(2.0, 1.0), (0.0, 3.0), (-1.5, 0.5), (4.0, 2.5)])
